@@ -29,7 +29,12 @@ StuckSeen   == {i \in 1..N : Recs[i].quiescent /\ Recs[i].healthy /\
 
 \* C06
 BadAgree    == {i \in 1..N : Recs[i].quiescent /\ ~AgreeOn(Recs[i].status, Recs[i].statusall)}
-BadTruthful == {i \in 1..N : Recs[i].quiescent /\ ~TruthfulOn(Recs[i].st, Recs[i].ipfs, Recs[i].status)}
+\* "... an error status whenever ... its last pin or unpin failed": an instruction that was
+\* rejected (queue full) must leave its CID in an error status
+LastFailedShown(r) ==
+    (r.res = "fullq" /\ r.act.name \in {"Track", "Untrack", "Recover"}) => IsErr(r.status[r.act.cid])
+BadTruthful == {i \in 1..N : (Recs[i].quiescent /\ ~TruthfulOn(Recs[i].st, Recs[i].ipfs, Recs[i].status))
+                               \/ ~LastFailedShown(Recs[i])}
 BadFilter   == {i \in 1..N : Recs[i].quiescent /\
                     \E k \in DOMAIN Recs[i].filters :
                         ~FilterOn(Recs[i].statusall, Rng(Recs[i].filters[k].f), Recs[i].filters[k].res)}
